@@ -31,8 +31,10 @@ def _mk_ops(ctx, st, w, specs):
     return out
 
 
-def _judge(ctx, mods, w, st, results, deadlock, extra_events=()):
+def _judge(ctx, mods, w, st, results, deadlock, extra_events=(), judge=True, ignore_k1=False):
     exc = mods.exceptions
+    if not judge:
+        return
     if deadlock is not None:
         ctx.fail('deadlock: %s' % (deadlock,))
         return
@@ -51,6 +53,8 @@ def _judge(ctx, mods, w, st, results, deadlock, extra_events=()):
         if not o.ok:
             k1 = [e for e in ctx.events if e.startswith('K1:')]
             if k1 and isinstance(o.exc, (exc.TcpTimeoutException, exc.AdbTimeoutError)):
+                if ignore_k1:
+                    continue      # the K1 timeout is reported once, under C06
                 ctx.fail(tag + "timed out waiting for its CLSE, which another stream's reader took off the wire and _AdbPacketStore.put dropped [K1]", detail=repr(o.exc))
             else:
                 ctx.fail(tag + 'raised %s although the device served every stream' % o.kind(), detail=repr(o.exc))
@@ -120,7 +124,7 @@ def h_threads(ctx, mods, shape):
             o = Outcome(exc=r.exc)
         results.append((op, exp, o))
     ctx.check(not s.inversions, 'lock order: the transport lock is never acquired while the store lock is held', detail=str(s.inversions[:2]))
-    _judge(ctx, mods, w, st, results, dl)
+    _judge(ctx, mods, w, st, results, dl, judge=shape.get('judge_results', True), ignore_k1=shape.get('ignore_k1', False))
     for l in (io._store_lock, io._transport_lock, w.dev._local_id_lock):
         ctx.check(not l.held, 'no lock is left held after all operations finished', detail=l.name)
     _after_and_ids(ctx, w, st, shape)
@@ -183,7 +187,7 @@ def h_async(ctx, mods, shape):
             from .common import Outcome
             val = Outcome(exc=e) if not isinstance(e, sched.Deadlock) else None
         results.append((op, exp, val))
-    _judge(ctx, mods, w, st, results, dl)
+    _judge(ctx, mods, w, st, results, dl, judge=shape.get('judge_results', True), ignore_k1=shape.get('ignore_k1', False))
     _after_and_ids_async(ctx, w, st, shape, dev, ctrl)
     st.dev.decoder.finish()
 
